@@ -2,6 +2,7 @@
 from __future__ import annotations
 
 import numpy as np
+from hypothesis import strategies as st
 
 from vp.runner import Part, Result
 from vp import gen as G
@@ -16,7 +17,8 @@ RULE = ('Valid powertrains by construction (as C01) with a recording load functi
         'recorded speed and duty cycle; each follower\'s driving torque = driver\'s x efficiency x ratio; load '
         'torque of the last element = the load function evaluated by the oracle at the RECORDED position, speed '
         'and time of that instant; upstream load = follower\'s / efficiency / ratio; net = driving - load. '
-        'Efficiencies (incl. the worm friction formula) and ratios are recomputed from the case. Non-trivial = '
+        'In a quarter of the cases an intermediate gear carries a second external load: its load torque must be its own '
+        'function at its recorded state (and the elements upstream of it propagate from there). Efficiencies (incl. the worm friction formula) and ratios are recomputed from the case. Non-trivial = '
         'some efficiency < 1, the load depends on time or state, and the duty cycle or the motor speed varies; '
         'distinct = canonical JSON.')
 ASSUMPTIONS = ['vp/model.py (ratios, efficiencies, load function), vp/oracle/motor.py', 'multiplicative tolerance '
@@ -55,7 +57,24 @@ def check(case) -> Result:
     return res
 
 
+@st.composite
+def s_case(draw, **kw):
+    from vp import model as MM
+    case = draw(G.s_case_controlled(**kw))
+    cands = [i + 1 for i, e in enumerate(case['chain'][:-1]) if e['type'] in ('spur', 'helical', 'wheel', 'worm')]
+    if cands and draw(st.integers(0, 3)) == 0:
+        # a second user load on an intermediate element (soft, constant + speed dependent)
+        mdl = MM.Model(case)
+        at = draw(st.sampled_from(cands))
+        r = mdl.cum_ratio(at)
+        stall_at = mdl.stall_out / r if r else mdl.stall_out
+        case['load2'] = {'at': at, 'c0': stall_at * draw(st.floats(-0.3, 0.3)),
+                         'cw': abs(stall_at) / (mdl.noload_out * r) * draw(st.floats(0, 0.2)) if r else 0.0,
+                         'csin': 0.0, 'kpos': 1.0, 'ct': 0.0, 'period': 1.0, 'unit': draw(G.s_unit('Torque'))}
+    return case
+
+
 def parts(tier):
     if tier == 'quick':
-        return [Part('chains', check, strategy=G.s_case_controlled(max_len=6, max_steps=30, nonmultiple=True), examples=250, shards=4)]
-    return [Part('chains', check, strategy=G.s_case_controlled(max_len=11, max_steps=120, nonmultiple=True), examples=2500, shards=16)]
+        return [Part('chains', check, strategy=s_case(max_len=6, max_steps=30, nonmultiple=True), examples=250, shards=4)]
+    return [Part('chains', check, strategy=s_case(max_len=11, max_steps=120, nonmultiple=True), examples=2500, shards=16)]
